@@ -245,6 +245,152 @@ fn check_scale(c: &ScaleCase) -> CheckResult {
     Ok(out)
 }
 
+// --- recorded traces: the inferred curve bounds the trace it was built from --------------
+
+fn check_recorded_trace(c: &crate::props::c12::TraceCase) -> CheckResult {
+    use response_time_analysis::arrival::{Curve, ExtrapolatingCurve};
+    use response_time_analysis::time::Offset;
+    let mut out = Outcome::default();
+    // more than prefix_jobs simultaneous events: the inferred prefix has no positive distance
+    // (known finding C12/from-trace-burst-larger-than-prefix) -- excluded here by construction
+    let k = c.prefix_jobs.min(c.trace.len() - 1);
+    if k == 0 || (0..c.trace.len() - k).any(|i| c.trace[i + k] == c.trace[i]) {
+        out.label("excluded(burst-larger-than-prefix)");
+        return Ok(out);
+    }
+    let span = c.trace.last().unwrap() - c.trace[0];
+    let upto = span + 30;
+    let eta = guard(|| {
+        let curve = Curve::from_trace(c.trace.iter().map(|x| Offset::from(*x)), c.prefix_jobs);
+        let ab: Ab = if c.extrapolating { std::rc::Rc::new(ExtrapolatingCurve::new(curve)) } else { std::rc::Rc::new(curve) };
+        (0..=upto).map(|x| ab.number_arrivals(d(x))).collect::<Vec<usize>>()
+    })
+    .map_err(|e| format!("from_trace / number_arrivals panicked: {}", e))?;
+    if eta[0] != 0 {
+        return Err(format!("number_arrivals(0) = {}", eta[0]));
+    }
+    for x in 1..eta.len() {
+        if eta[x] < eta[x - 1] {
+            return Err(format!("number_arrivals decreases at delta={}: {} -> {}", x, eta[x - 1], eta[x]));
+        }
+    }
+    let ev: Vec<i64> = c.trace.iter().map(|x| *x as i64).collect();
+    let mw = max_window_table(&ev, upto);
+    for delta in 0..=upto as usize {
+        if mw[delta] > eta[delta] {
+            return Err(format!(
+                "the recorded trace has {} events in a window of length {} but the curve inferred from it says {}",
+                mw[delta], delta, eta[delta]
+            ));
+        }
+    }
+    out.inner = upto;
+    let gaps: std::collections::BTreeSet<u64> = c.trace.windows(2).map(|w| w[1] - w[0]).collect();
+    out.nontrivial = gaps.len() >= 2 && c.trace.len() > c.prefix_jobs + 1;
+    out.label_if(c.trace.windows(2).any(|w| w[0] == w[1]), "simultaneous-events");
+    out.label_if(c.extrapolating, "extrapolating");
+    Ok(out)
+}
+
+// --- histories: queries interleaved with eager extrapolation of one Curve object ----------
+
+#[derive(Clone, Debug, Serialize, Deserialize)]
+pub enum HOp {
+    Query(u64),
+    Horizon(u64),
+    Steps(usize),
+}
+
+#[derive(Clone, Debug, Serialize, Deserialize)]
+pub struct HistCase {
+    pub dmin: Vec<u64>,
+    pub ops: Vec<HOp>,
+    pub seqs: Vec<Vec<u16>>,
+}
+
+fn hist_strategy(tier: Tier) -> BoxedStrategy<HistCase> {
+    let tmax = tier.pick(25, 50);
+    (
+        prop_oneof![3 => dmin_strategy(7, tmax, true), 1 => dmin_loose_strategy(6, tmax)],
+        proptest::collection::vec(
+            prop_oneof![
+                3 => (0u64..300).prop_map(HOp::Query),
+                2 => (0u64..400).prop_map(HOp::Horizon),
+                3 => (0usize..24).prop_map(HOp::Steps),
+            ],
+            1..6,
+        ),
+        proptest::collection::vec(choices_strategy(), 1..3),
+    )
+        .prop_map(|(dmin, ops, seqs)| HistCase { dmin, ops, seqs })
+        .boxed()
+}
+
+/// A Curve object that is queried and eagerly extended in any order keeps bounding every sequence
+/// that respects its original delta-min prefix (the extension only adds implied distances).
+fn check_hist(c: &HistCase) -> CheckResult {
+    use response_time_analysis::arrival::Curve;
+    let mut out = Outcome::default();
+    let l0 = *c.dmin.last().unwrap();
+    let big = (8 * l0 + 60).min(2000);
+    let mut cur = guard(|| Curve::new(c.dmin.iter().map(|x| d(*x)).collect())).map_err(|e| format!("Curve::new panicked: {}", e))?;
+    let mut all: Vec<Vec<u16>> = vec![vec![]];
+    all.extend(c.seqs.iter().cloned());
+    let tables: Vec<Vec<usize>> = all
+        .iter()
+        .map(|chv| {
+            let mut ch = Choices::new(chv);
+            let ev = curve_events(&c.dmin, 0, big as i64, &mut ch, 350);
+            max_window_table(&ev, big)
+        })
+        .collect();
+    let mut extended = false;
+    let mut queried_before_extension = false;
+    for (i, op) in c.ops.iter().enumerate() {
+        match op {
+            HOp::Query(x) => {
+                guard(|| cur.number_arrivals(d(*x))).map_err(|e| format!("number_arrivals({}) panicked: {}", x, e))?;
+                if !extended {
+                    queried_before_extension = true;
+                }
+                continue;
+            }
+            HOp::Horizon(h) => guard(|| cur.extrapolate(d(*h))).map_err(|e| format!("extrapolate({}) panicked: {}", h, e))?,
+            HOp::Steps(n) => guard(|| cur.extrapolate_steps(*n)).map_err(|e| format!("extrapolate_steps({}) panicked: {}", n, e))?,
+        }
+        extended = true;
+        let eta: Vec<usize> = guard(|| (0..=big).map(|x| cur.number_arrivals(d(x))).collect::<Vec<_>>())
+            .map_err(|e| format!("number_arrivals after {:?} panicked: {}", op, e))?;
+        if eta[0] != 0 {
+            return Err(format!("after {:?}: number_arrivals(0) = {}", &c.ops[..=i], eta[0]));
+        }
+        for x in 1..eta.len() {
+            if eta[x] < eta[x - 1] {
+                return Err(format!("after {:?}: number_arrivals decreases at delta={}: {} -> {}", &c.ops[..=i], x, eta[x - 1], eta[x]));
+            }
+        }
+        for mw in &tables {
+            out.inner += 1;
+            for x in 0..=big as usize {
+                if mw[x] > eta[x] {
+                    return Err(format!(
+                        "after {:?} on the prefix {:?}: a sequence respecting the prefix has {} events in a window of length {} but number_arrivals = {}",
+                        &c.ops[..=i],
+                        c.dmin,
+                        mw[x],
+                        x,
+                        eta[x]
+                    ));
+                }
+            }
+        }
+    }
+    out.nontrivial = extended && c.dmin.len() >= 2 && tables[0][big as usize] >= 3;
+    out.label_if(queried_before_extension, "query-before-extension");
+    out.label_if(c.ops.iter().filter(|o| !matches!(o, HOp::Query(_))).count() >= 2, "extended-twice");
+    Ok(out)
+}
+
 /// exhaustive stage over a tiny parameter grid (same models as C11's exhaustive stage)
 fn exhaustive(tier: Tier, _seed: u64) -> ExtraResult {
     let mut r = ExtraResult { exhaustive: true, replay_subcheck: "sequences", ..Default::default() };
@@ -348,7 +494,7 @@ fn exhaustive(tier: Tier, _seed: u64) -> ExtraResult {
 pub fn def() -> PropertyDef {
     PropertyDef {
         id: "C10",
-        rule: "generated: nested arrival specs (Periodic, Sporadic with jitter up to 4T, plain and extrapolating delta-min curves incl. bursts, plateaus and non-super-additive prefixes, Never, clone_with_jitter, Propagated, sum_of, Vec, boxed slice; depth <= 3) and, per case, the densest sequence plus 1-4 generated admissible event sequences (slack and per-event jitter decisions are a generated vector); oracle: max number of events in any window of every length delta <= horizon (window counting over the sequence, independent of number_arrivals) <= number_arrivals(delta); number_arrivals(0)=0 and monotone; Periodic/Sporadic attained by the densest sequence and sub-additive; jitter a then b == jitter a+b pointwise, and the twice-jittered model bounds twice-delayed sequences. Second sub-check (large values): every time parameter of a generated model (incl. derived curves and prefixes) multiplied by 10^3 / 65537 / 10^7 / 2^32+15: number_arrivals at s-multiples and the first 12 steps must be the images of the unscaled ones. Non-trivial: some sequence has >= 3 events in a checked window and the model has jitter, a burst or nesting; distinct by case JSON.".into(),
+        rule: "generated: nested arrival specs (Periodic, Sporadic with jitter up to 4T, plain and extrapolating delta-min curves incl. bursts, plateaus and non-super-additive prefixes, Never, clone_with_jitter, Propagated, sum_of, Vec, boxed slice; depth <= 3) and, per case, the densest sequence plus 1-4 generated admissible event sequences (slack and per-event jitter decisions are a generated vector); oracle: max number of events in any window of every length delta <= horizon (window counting over the sequence, independent of number_arrivals) <= number_arrivals(delta); number_arrivals(0)=0 and monotone; Periodic/Sporadic attained by the densest sequence and sub-additive; jitter a then b == jitter a+b pointwise, and the twice-jittered model bounds twice-delayed sequences. Second sub-check (large values): every time parameter of a generated model (incl. derived curves and prefixes) multiplied by 10^3 / 65537 / 10^7 / 2^32+15: number_arrivals at s-multiples and the first 12 steps must be the images of the unscaled ones. Third sub-check (recorded-trace): Curve::from_trace(trace, n) (plain and extrapolating) of generated traces with bursts, short and long gaps: number_arrivals(0) = 0, monotone, and no window of the recorded trace itself holds more events than the curve says (traces with more than n simultaneous events are the known finding C12/from-trace-burst-larger-than-prefix and are excluded by construction and counted). Fourth sub-check (curve-history): one arrival::Curve object that is queried and eagerly extended (extrapolate, extrapolate_steps) in a generated order; after every extension number_arrivals(0) = 0, monotone, and the densest plus 1-2 generated sequences respecting the ORIGINAL delta-min prefix stay bounded. Non-trivial: some sequence has >= 3 events in a checked window and the model has jitter, a burst or nesting; distinct by case JSON.".into(),
         assumptions: vec![
             "delta-min prefixes are non-empty, non-decreasing and end with a positive distance (an all-zero prefix denotes an unbounded burst)".into(),
             "Periodic means exactly periodic releases with an arbitrary phase".into(),
@@ -356,6 +502,8 @@ pub fn def() -> PropertyDef {
         subchecks: vec![
             subcheck("sequences", (12_000, 200_000), strategy, check).with_decoder(decode, check),
             subcheck("scale-invariance", (4000, 100_000), scale_strategy, check_scale),
+            subcheck("recorded-trace", (6000, 100_000), crate::props::c12::trace_strategy, check_recorded_trace),
+            subcheck("curve-history", (4000, 80_000), hist_strategy, check_hist),
         ],
         extra: Some(Box::new(exhaustive)),
     }
